@@ -625,25 +625,36 @@ func vh_C10_sharing() {
 	b := vChoice("second", len(vC10Places))
 	pa, pb := vC10Places[a], vC10Places[b]
 	twice := pa.name == "kids-twice" || pa.name == "ps-twice"
+	// two entries of one record need two different keys
+	key := func(s string) string {
+		for i := range s {
+			if s[i] == ':' {
+				return s[:i]
+			}
+		}
+		return s
+	}
 	if twice {
 		vAssume(b == 0)
 	} else {
 		vAssume(pb.name != "kids-twice" && pb.name != "ps-twice")
-		// two entries of one record need two different keys
-		key := func(s string) string {
-			for i := range s {
-				if s[i] == ':' {
-					return s[:i]
-				}
-			}
-			return s
-		}
 		vAssume(key(pa.text) != key(pb.text))
 	}
 	num := &SexpInt{Val: vInt64("num")}
 	text := `(def l (vleaf name:"shared" num:9001)) (def r (vrec ` + pa.text
 	if !twice {
 		text += ` ` + pb.text
+	}
+	// thorough tier: a third reference, from a place of another key
+	third := ""
+	if vTier() == 1 && !twice {
+		c := vChoice("third", 5)
+		if c > 0 {
+			pc := vC10Places[c-1]
+			vAssume(key(pc.text) != key(pa.text) && key(pc.text) != key(pb.text))
+			text += ` ` + pc.text
+			third = pc.name
+		}
 	}
 	text += `))`
 	if _, ok := vC10Run(env, vT(env, text, num)); !ok {
@@ -670,6 +681,10 @@ func vh_C10_sharing() {
 	}
 	vAssert(x != nil && y != nil && x.Num == num.Val && y.Num == num.Val && x.Name == "shared" && y.Name == "shared", "both-places-hold-the-leaf's-values:"+pa.name+"+"+pb.name)
 	vAssert(x == y, "a-record-referenced-twice-is-one-go-object:"+pa.name+"+"+pb.name)
+	if third != "" {
+		z := vC10LeafAt(g, third, 0)
+		vAssert(z != nil && z == x, "a-record-referenced-three-times-is-one-go-object")
+	}
 	vReach("sharing")
 }
 
